@@ -260,6 +260,13 @@ func (m *model) exec(ops []Op) bool {
 				m.fold(0xffffffff)
 			}
 		case "call":
+		case "xwait":
+			// the waiter's memory is all zero and nobody notifies: equal -> timed out (2), else not-equal (1)
+			if uint32(op.Val) == 0 {
+				m.fold(2)
+			} else {
+				m.fold(1)
+			}
 		case "block":
 			if !m.exec(op.Body) {
 				return false
@@ -374,7 +381,7 @@ func tname(t64 bool) string {
 	return "i32"
 }
 
-func emit(b *wasmenc.B, ops []Op, depth int, fNoop, fHost, fGrow uint32) {
+func emit(b *wasmenc.B, ops []Op, depth int, fNoop, fHost, fGrow, fWait uint32) {
 	for i := range ops {
 		op := &ops[i]
 		switch op.Kind {
@@ -487,25 +494,47 @@ func emit(b *wasmenc.B, ops []Op, depth int, fNoop, fHost, fGrow uint32) {
 			b.I32Const(int32(op.N)).Call(fHost)
 		case "callgrow":
 			b.I32Const(int32(op.N)).Call(fGrow)
+		case "xwait":
+			// memory.atomic.wait32 executed by ANOTHER module on its own shared memory (timeout 0)
+			b.I32Const(int32(op.Off)).I32Const(int32(uint32(op.Val))).Call(fWait).Raw(wasmenc.OpI64ExtendI32U)
+			foldTop(b)
 		case "call":
 			b.Call(fNoop)
 		case "block":
 			b.Block()
-			emit(b, op.Body, depth+1, fNoop, fHost, fGrow)
+			emit(b, op.Body, depth+1, fNoop, fHost, fGrow, fWait)
 			b.End()
 		case "loop":
 			c := uint32(localLoopC + depth)
 			b.I32Const(2).LocalSet(c)
 			b.Loop()
-			emit(b, op.Body, depth+1, fNoop, fHost, fGrow)
+			emit(b, op.Body, depth+1, fNoop, fHost, fGrow, fWait)
 			b.LocalGet(c).I32Const(1).Raw(wasmenc.OpI32Sub).LocalTee(c).BrIf(0)
 			b.End()
 		case "if":
 			b.LocalGet(uint32(op.Param)).If()
-			emit(b, op.Body, depth+1, fNoop, fHost, fGrow)
+			emit(b, op.Body, depth+1, fNoop, fHost, fGrow, fWait)
 			b.End()
 		}
 	}
+}
+
+func usesWaiter(ops []Op) bool {
+	for _, op := range ops {
+		if op.Kind == "xwait" || usesWaiter(op.Body) {
+			return true
+		}
+	}
+	return false
+}
+
+// buildWaiter is a module with its own shared memory whose function w(addr, expected) executes
+// memory.atomic.wait32 with a zero timeout.
+func buildWaiter() []byte {
+	m := &wasmenc.Module{Mems: [][]byte{wasmenc.Limits(1, 1, true)}}
+	m.ExportFunc("w", m.AddFunc([]byte{wasmenc.I32, wasmenc.I32}, []byte{wasmenc.I32}, nil,
+		wasmenc.NewB().LocalGet(0).LocalGet(1).I64Const(0).FE(0x01, 2, 0).Bytes()))
+	return m.Encode()
 }
 
 // buildOwner is the instance that defines the memory in "imported" mode.
@@ -520,7 +549,10 @@ func buildOwner(c *Case) []byte {
 func build(c *Case) []byte {
 	m := &wasmenc.Module{}
 	fHost := m.ImportFunc("env", "hgrow", []byte{wasmenc.I32}, nil)
-	var fGrow uint32
+	var fGrow, fWait uint32
+	if usesWaiter(c.Ops) {
+		fWait = m.ImportFunc("waiter", "w", []byte{wasmenc.I32, wasmenc.I32}, []byte{wasmenc.I32})
+	}
 	growBody := wasmenc.NewB().LocalGet(0).MemoryGrow().Drop().Bytes()
 	if c.Mem == "imported" {
 		// callgrow crosses into the instance that owns the memory
@@ -531,7 +563,7 @@ func build(c *Case) []byte {
 	}
 	fNoop := m.AddFunc(nil, nil, nil, wasmenc.NewB().Nop().Bytes())
 	b := wasmenc.NewB()
-	emit(b, c.Ops, 0, fNoop, fHost, fGrow)
+	emit(b, c.Ops, 0, fNoop, fHost, fGrow, fWait)
 	b.LocalGet(localAcc)
 	locals := []byte{wasmenc.I64, wasmenc.I32, wasmenc.I32, wasmenc.I32, wasmenc.I32, wasmenc.I64}
 	for i := 0; i < 11; i++ {
@@ -579,6 +611,11 @@ func RunCase(c *Case) string {
 	}), []api.ValueType{api.ValueTypeI32}, nil).Export("hgrow").Instantiate(ictx)
 	if err != nil {
 		return "harness: " + err.Error()
+	}
+	if usesWaiter(c.Ops) {
+		if _, err := rt.InstantiateWithConfig(ictx, buildWaiter(), wazero.NewModuleConfig().WithName("waiter")); err != nil {
+			return "harness: waiter module rejected: " + err.Error()
+		}
 	}
 	if c.Mem == "imported" {
 		if _, err := rt.InstantiateWithConfig(ictx, buildOwner(c), wazero.NewModuleConfig().WithName("owner")); err != nil {
@@ -871,8 +908,10 @@ func (g *gen) ops(n, depth int) []Op {
 			op = Op{Kind: "copy", N: n, Base: g.baseFor(target(t, g.md.size, int(n)), 0), Base2: g.baseFor(target(t, g.md.size, int(n)), 0)}
 		case k < 91:
 			op = Op{Kind: pick(t, "gk", []string{"grow", "hostgrow", "callgrow"}), N: uint32(rapid.IntRange(0, 2).Draw(t, "gd"))}
-		case k < 94:
+		case k < 93:
 			op = Op{Kind: "call"}
+		case k < 94:
+			op = Op{Kind: "xwait", Off: uint32(rapid.IntRange(0, 16383).Draw(t, "waddr")) * 4, Val: uint64(rapid.SampledFrom([]uint32{0, 0, 1, 0xffffffff}).Draw(t, "wexp"))}
 		default:
 			if depth >= 3 {
 				continue
@@ -885,7 +924,7 @@ func (g *gen) ops(n, depth int) []Op {
 			out = append(out, op)
 			continue
 		}
-		if op.Kind != "setlocal" && op.Kind != "grow" && op.Kind != "hostgrow" && op.Kind != "callgrow" && op.Kind != "call" {
+		if op.Kind != "setlocal" && op.Kind != "grow" && op.Kind != "hostgrow" && op.Kind != "callgrow" && op.Kind != "call" && op.Kind != "xwait" {
 			g.nacc++
 			g.smallOff(&op)
 		}
@@ -1037,6 +1076,9 @@ func prop(t *rapid.T) {
 	}
 	if strings.Contains(flat, "callgrow") {
 		lbl = append(lbl, "grow-in-callee")
+	}
+	if usesWaiter(c.Ops) {
+		lbl = append(lbl, "atomic-wait-in-another-module")
 	}
 	if big {
 		lbl = append(lbl, "big-memory")
